@@ -19,6 +19,7 @@ WORK = os.path.join(VERIF, "work")
 EVID = os.path.join(VERIF, "evidence")
 REPLAYS = os.path.join(VERIF, "replays")
 NCPU = os.cpu_count() or 4
+TLA_CP = "/opt/veriftools/tla/tla2tools.jar:/opt/veriftools/tla/CommunityModules-deps.jar"
 
 
 class ToolError(Exception):
@@ -187,11 +188,15 @@ class TlcResult:
 def tlc(module, cfg, env=None, workers=1, xmx="3g", timeout=3600, metadir=None, extra=None, cwd=SPEC):
     """Runs TLC; returns TlcResult.  Raises ToolError on timeout / crash."""
     e = dict(os.environ)
-    e["JAVA_TOOL_OPTIONS"] = "-Xss256m -Xmx%s -XX:ParallelGCThreads=2 -DTLA-Library=%s" % (xmx, SPEC)
+    e.pop("JAVA_TOOL_OPTIONS", None)
     if env:
         e.update(env)
     metadir = metadir or os.path.join(WORK, "meta_%d_%d" % (os.getpid(), int(time.time() * 1e6) % 10**9))
-    cmd = ["timeout", str(timeout), "tlc", "-workers", str(workers), "-metadir", metadir, "-cleanup",
+    # java is started directly (not through the `tlc` wrapper) so that -Xss is on the
+    # command line: only then does the launcher give the MAIN thread the big stack too
+    cmd = ["timeout", str(timeout), "java", "-Xss1g", "-Xmx%s" % xmx, "-XX:+UseParallelGC", "-XX:ParallelGCThreads=2",
+           "-DTLA-Library=%s" % SPEC, "-cp", TLA_CP, "tlc2.TLC",
+           "-workers", str(workers), "-metadir", metadir, "-cleanup",
            "-noGenerateSpecTE", "-config", cfg] + (extra or []) + [module]
     t0 = time.time()
     p = subprocess.run(cmd, cwd=cwd, env=e, stdout=subprocess.PIPE, stderr=subprocess.STDOUT, text=True)
